@@ -16,3 +16,42 @@ func VerifIncrementSequence(sequence, increment int32) int32 {
 func VerifSetPartitionRacks(b *ConsumerBalancer, racks map[string][]string) {
 	b.partitionRacks = racks
 }
+
+// VerifAckEntry / VerifAckRange mirror the inputs and outputs of buildAckRanges (share-group acknowledgement ranges).
+type VerifAckEntry struct {
+	Offset int64
+	Status int8 // 0 = reset / undecided, 1 accept, 2 release, 3 reject, 4 renew
+	Stamp  int  // which (source, session epoch) stamp the entry's slab carries: 0 or 1
+}
+
+type VerifAckRange struct {
+	First, Last int64
+	Type        int8
+	Stamp       int
+}
+
+// VerifBuildAckRanges calls buildAckRanges on the given pending user entries and gap ranges.
+func VerifBuildAckRanges(entries []VerifAckEntry, gaps []VerifAckRange) ([]VerifAckRange, bool) {
+	srcs := [2]*source{{nodeID: 1}, {nodeID: 2}}
+	slabs := [2]*shareAckSlab{{ackSource: srcs[0], sessionEpoch: 1}, {ackSource: srcs[1], sessionEpoch: 2}}
+	var es []*shareAckState
+	for _, e := range entries {
+		st := &shareAckState{offset: e.Offset, slab: slabs[e.Stamp%2]}
+		st.status.Store(int32(e.Status))
+		es = append(es, st)
+	}
+	var gs []shareAckRange
+	for _, g := range gaps {
+		gs = append(gs, shareAckRange{firstOffset: g.First, lastOffset: g.Last, source: srcs[g.Stamp%2], sessionEpoch: slabs[g.Stamp%2].sessionEpoch, ackType: g.Type})
+	}
+	out, hasRenew := buildAckRanges(es, gs)
+	var res []VerifAckRange
+	for _, r := range out {
+		stamp := 0
+		if r.source == srcs[1] {
+			stamp = 1
+		}
+		res = append(res, VerifAckRange{First: r.firstOffset, Last: r.lastOffset, Type: r.ackType, Stamp: stamp})
+	}
+	return res, hasRenew
+}
